@@ -735,9 +735,9 @@ def validate_unique_names(nodes):
     visit(nodes, True)
 
 
-UNWRITABLE_TEXT = r"[\x00-\x1f]|--|\+\+|0[xX][0-9a-fA-F]*[eE][-+]"
-""" expression text that is pasted into the generated code: a line break ends a Python statement, -- is a C++ operator,
-    0xE+1 is one (ill-formed) number for a C++ compiler """
+UNWRITABLE_TEXT = r"[\x00-\x08\x0a-\x1f]|--|\+\+|0[xX][0-9a-fA-F]*[eE][-+]"
+""" expression text that is pasted into the generated code: a line break ends a Python statement (a tab is a blank for
+    prophyc, Python and C++ alike), -- is a C++ operator, 0xE+1 is one (ill-formed) number for a C++ compiler """
 
 
 def validate_values(nodes, constants, strict=False):
